@@ -41,6 +41,9 @@ def calls(fn: Func | ast.AST, module: Module | None = None, dotted: str | tuple 
     for n in it:
         if not isinstance(n, ast.Call):
             continue
+        if dotted is None and attr is None and name is None:
+            out.append(n)
+            continue
         if dotted is not None and module is not None:
             d = module.dotted(n.func)
             if d in ((dotted,) if isinstance(dotted, str) else dotted):
@@ -234,3 +237,59 @@ def str_method_chain(expr: ast.AST) -> tuple[ast.AST, list[tuple[str, list[ast.A
         cur = cur.func.value
     chain.reverse()
     return cur, chain
+
+
+# ---------------------------------------------------------------------------
+# attribute constants assigned in __init__ (E4)
+# ---------------------------------------------------------------------------
+
+class _SubstSelf(ast.NodeTransformer):
+    def __init__(self, env, selfname='self'):
+        self.env, self.selfname = env, selfname
+
+    def visit_Attribute(self, node):
+        if isinstance(node.value, ast.Name) and node.value.id == self.selfname and node.attr in self.env:
+            return ast.copy_location(ast.Constant(self.env[node.attr]), node)
+        return self.generic_visit(node)
+
+    def visit_Name(self, node):
+        if node.id in self.env and not node.id.startswith('__'):
+            return ast.copy_location(ast.Constant(self.env[node.id]), node)
+        return node
+
+
+def fold_with(expr: ast.AST, env: dict):
+    """const_value of expr after substituting self.<attr> / names from env; raises ValueError."""
+    import copy
+    from .model import const_value
+    e = _SubstSelf(env).visit(copy.deepcopy(expr))
+    return const_value(e)
+
+
+def init_constants(init_fn: Func, extra_env: dict | None = None) -> dict:
+    """Values of `self.X = <foldable>` assignments of a constructor, evaluated in order.
+    Attributes assigned more than once or conditionally are dropped."""
+    from .model import const_value
+    env = dict(extra_env or {})
+    seen = {}
+    for s in init_fn.node.body:
+        if isinstance(s, (ast.Assign, ast.AnnAssign)):
+            targets = s.targets if isinstance(s, ast.Assign) else [s.target]
+            for t in targets:
+                if isinstance(t, ast.Attribute) and isinstance(t.value, ast.Name) and t.value.id == 'self' and s.value is not None:
+                    seen[t.attr] = seen.get(t.attr, 0) + 1
+                    try:
+                        env[t.attr] = fold_with(s.value, env)
+                    except ValueError:
+                        env.pop(t.attr, None)
+    # assignments elsewhere in the constructor (nested) make the constant unreliable
+    for n in own_nodes(init_fn.node):
+        if isinstance(n, (ast.Assign, ast.AugAssign)) and n not in init_fn.node.body:
+            targets = n.targets if isinstance(n, ast.Assign) else [n.target]
+            for t in targets:
+                if isinstance(t, ast.Attribute) and isinstance(t.value, ast.Name) and t.value.id == 'self':
+                    env.pop(t.attr, None)
+    for k, c in seen.items():
+        if c > 1:
+            env.pop(k, None)
+    return env
